@@ -114,7 +114,6 @@ def run(R):
                 R.counterexample('expansion', mech, {'grammar': ra['desc'], 'expansion': rb['desc'].split('\n')[1 if rb['desc'].startswith('grammar') else 0], 'text': ca[0]},
                                  'the outcome of the expanded grammar: ' + xb, xa)
     R.extra['call_sites_with_expansion'] = sites_ok
-    R.level = 'translation_validation'
     R.extra['programs'] = len(jobs)
     R.extra['disagreements_checked'] = sum(s['model_vs_impl_disagreements'] + s['spec_failures'] for s in R.streams.values())
     R.assumptions += ['templates and call sites come from a fixed catalogue (37 sites x {unnamed, named}); expansions are written by hand',
